@@ -820,6 +820,186 @@ def c12(work, v, tier):
                            dict(module="Check_Equal", fn="equal", n=2000 if q else 20000, depth=2, salt=12)])
 
 
+import re
+
+RACE_ACCESS = re.compile(r"^(Read|Write|Previous read|Previous write) at ")
+
+
+def parse_race_log(text):
+    """-> list of dict(k1, f1, k2, f2, head) : one per race report"""
+    out = []
+    for blk in text.split("=================="):
+        if "WARNING: DATA RACE" not in blk:
+            continue
+        acc = []
+        cur = None
+        for line in blk.splitlines():
+            ls = line.strip()
+            m = RACE_ACCESS.match(ls)
+            if m:
+                cur = dict(k=m.group(1), f="<none>")
+                acc.append(cur)
+                continue
+            if ls.startswith("Goroutine "):
+                cur = None
+            if cur is not None and cur["f"] == "<none>" and "go-stackage." in ls and not ls.startswith("/"):
+                fn = ls.split("go-stackage.", 1)[1]
+                fn = fn[:fn.rfind("(")] if fn.endswith(")") else fn
+                cur["f"] = fn
+        if len(acc) >= 2:
+            out.append(dict(k1=acc[0]["k"], f1=acc[0]["f"], k2=acc[1]["k"], f2=acc[1]["f"], head=blk.strip()[:1500]))
+    return out
+
+
+def race_stage(work, v, findings, prop, acc, mode, cmd_args, name, confirm=None):
+    """Free-running goroutines in a -race build; histories judged by LinTrace.tla,
+    race reports classified by RaceClass.tla."""
+    hr = lib.build_harness(work, race=True)
+    histf = work.path("shist_%s.ndjson" % name)
+    logf = work.path("race_%s.log" % name)
+    env = dict(os.environ, GORACE="halt_on_error=0 exitcode=0 history_size=3")
+    import subprocess
+    with open(logf, "w") as lf:
+        p = subprocess.run([hr] + cmd_args + ["-out", histf], stdout=subprocess.PIPE, stderr=lf, text=True, env=env, timeout=3000)
+    if p.returncode != 0:
+        raise Infra("race-built harness failed (rc=%d): %s" % (p.returncode, open(logf).read()[-1500:]))
+    g = json.loads(p.stdout.strip().splitlines()[-1])
+    reports = parse_race_log(open(logf).read())
+    racef = work.path("races_%s.ndjson" % name)
+    with open(racef, "w") as fh:
+        if not reports:
+            fh.write(json.dumps(dict(k1="none", f1="", k2="none", f2="")) + "\n")
+        for r in reports:
+            fh.write(json.dumps({k: r[k] for k in ("k1", "f1", "k2", "f2")}) + "\n")
+    result = work.path("raceres_%s.json" % name)
+    cfg = "\n".join(["SPECIFICATION Spec", "CONSTANTS", '  RACEFILE = "%s"' % racef, '  RESULT = "%s"' % result, '  MODE = "%s"' % mode,
+                     "INVARIANT Done", "CHECK_DEADLOCK FALSE", ""])
+    res = lib.tlc(work, "race_" + name, "RaceClass", cfg, workers=1, timeout=600)
+    r = json.load(open(result))
+    acc["states"] += res["distinct"]
+    acc["tv"].append(dict(name="race-" + name, mode=mode, rounds=g.get("rounds"), race_reports=len(reports), known_precheck_read=r["known"],
+                          unlisted_reports=len(r["bad"]), distinct_report_kinds=len({(x["k1"], x["f1"], x["k2"], x["f2"]) for x in reports})))
+    viol = []
+    if r["known"] > 0:
+        sig = "%s/race/precheck-read" % prop
+        f = findings.match(prop, sig)
+        if f is None:
+            viol.append(dict(kind="race", detail=["pre-check read races observed but %s is not listed" % sig]))
+        else:
+            kinds = sorted({"%s %s | %s %s" % (x["k1"], x["f1"], x["k2"], x["f2"]) for x in reports})
+            v.known_finding("%s: %d race reports of the listed class (unlocked pre-check read vs write inside a critical section), e.g. %s" % (sig, r["known"], kinds[0]))
+    for b in r["bad"][:3]:
+        rep = reports[b["line"] - 1]
+        viol.append(dict(property=prop, kind="race", detail=["race report outside the listed class: %s %s | %s %s" % (rep["k1"], rep["f1"], rep["k2"], rep["f2"]), rep["head"]],
+                         **{"class": "%s/race/%s|%s" % (prop, rep["f1"], rep["f2"])}))
+    return histf, g, viol
+
+
+def lin_stage(work, acc, histf, name):
+    result = work.path("lin_%s.json" % name)
+    cfg = "\n".join(["SPECIFICATION LSpec", "CONSTANTS", '  HISTFILE = "%s"' % histf, '  RESULT = "%s"' % result,
+                     "INVARIANT Mark", "POSTCONDITION Post", "CHECK_DEADLOCK FALSE", ""])
+    res = lib.tlc(work, "lin_" + name, "LinTrace", cfg, workers=1, timeout=3000)
+    if not os.path.exists(result):
+        raise Infra("LinTrace wrote no result")
+    r = json.load(open(result))
+    acc["states"] += res["distinct"]
+    acc["generated"] += res["generated"]
+    return r, res
+
+
+@check("C10")
+def c10(work, v, tier):
+    q = tier == "quick"
+    findings = Findings()
+    harness = lib.build_harness(work)
+    acc = dict(states=0, transitions=0, generated=0, traces=0, evaluations=0, trace_events=0, instances=[], tv=[], samples=[])
+    insts = [("g2x1", dict(G=2, OpsPer=1, Lens="{0, 1, 2, 3}", Caps="{0, 2}", FAMILY="core"), 0),
+             ("g2x2", dict(G=2, OpsPer=2, Lens="{1, 2}" if not q else "{1}", Caps="{0, 3}", FAMILY="poppush"), 6000 if q else 0),
+             ("g3x1", dict(G=3, OpsPer=1, Lens="{0, 1, 2}" if not q else "{1}", Caps="{0, 2}", FAMILY="mini3"), 6000 if q else 0)]
+    if not q:
+        insts.append(("g2x2core", dict(G=2, OpsPer=2, Lens="{1}", Caps="{0}", FAMILY="core"), 60000))
+    for name, c, limit in insts:
+        schedf = work.path("sched_%s.ndjson" % name)
+        cfg = "\n".join(["SPECIFICATION Spec", "CONSTANTS"] + ["  %s = %s" % (k, ('"%s"' % val) if k == "FAMILY" else val) for k, val in c.items()] +
+                        ['  OUT = "%s"' % schedf, "INVARIANTS Linearizable CapRespected OnlyUserValues Emit", "CHECK_DEADLOCK FALSE", ""])
+        res = lib.tlc(work, "conc_" + name, "Concurrent", cfg, workers=1, timeout=3000)
+        histf = work.path("hist_%s.ndjson" % name)
+        rc, out, wall = lib.run([harness, "gated", "-sched", schedf, "-out", histf, "-limit", str(limit), "-seed", str(lib.seed())], timeout=3000)
+        if rc != 0:
+            raise Infra("gated execution failed: " + out[-2000:])
+        g = json.loads(out.strip().splitlines()[-1])
+        r, lres = lin_stage(work, acc, histf, name)
+        if r["histories"] != g["executed"]:
+            raise Infra("LinTrace saw %d histories, %d were executed" % (r["histories"], g["executed"]))
+        acc["states"] += res["distinct"]; acc["generated"] += res["generated"]
+        acc["transitions"] += g["schedules_enumerated"]; acc["traces"] += g["executed"]; acc["evaluations"] += g["executed"]
+        acc["instances"].append(dict(name=name, constants=c, tlc_distinct_states=res["distinct"], schedules_enumerated=g["schedules_enumerated"],
+                                     schedules_executed_on_real_goroutines=g["executed"], rejected_by_LinTrace=len(r["rejected"]),
+                                     model_drift=g["drift"], exact_prediction_mismatch=g["prediction_mismatch"],
+                                     tlc_wall_s=round(res["wall"], 1), exec_wall_s=round(wall, 1), lintrace_wall_s=round(lres["wall"], 1)))
+        if r["rejected"]:
+            hs = lib.read_ndjson(histf)
+            ss = {json.dumps([l["init"], l["prog"], l["sched"]], sort_keys=True): l for l in lib.read_ndjson(schedf)} if limit == 0 else None
+            for idx in r["rejected"][:3]:
+                h = hs[idx - 1]
+                # find the schedule line of this history
+                prog = [[e["c"] for e in gg] for gg in h["hist"]]
+                sl = None
+                for l in lib.read_ndjson(schedf):
+                    if l["sched"] == h["sched"] and l["init"] == h["init"] and len(l["prog"]) == len(prog):
+                        if all(len(a) >= len(b) and a[:len(b)] == b for a, b in zip(l["prog"], prog)):
+                            sl = l
+                            break
+                rec = dict(property="C10", kind="sched", schedule=sl, history=h,
+                           detail=["schedule %s of %s: no sequential execution explains the observed history" % (h["sched"], json.dumps(prog)),
+                                   "flags: %s" % h["flags"], "returns: %s final: %s" % (json.dumps([[e["ret"] for e in gg] for gg in h["hist"]]), h["final"])],
+                           **{"class": "C10/gated/%s" % ("flag" if h["flags"] else "nonlinearizable")})
+                triage(v, findings, "C10", harness, rec, None)
+        else:
+            h = lib.read_ndjson(histf, limit=40)[-1]
+            acc["samples"].append(dict(kind="gated-schedule", schedule=h["sched"], history=[[dict(call=e["c"], ret=e["ret"]) for e in gg] for gg in h["hist"]], final=h["final"]))
+    # free-running goroutines under the race detector
+    def stress(seed_salt, name):
+        histf, g, viol = race_stage(work, v, findings, "C10", acc, "mutators",
+                                    ["stress", "-rounds", str(300 if q else 4000), "-g", "6", "-ops", "4", "-seed", str(lib.seed() * 31 + seed_salt)], name)
+        r, lres = lin_stage(work, acc, histf, name)
+        acc["traces"] += g["rounds"]; acc["evaluations"] += g["rounds"]
+        acc["tv"].append(dict(name="stress-" + name, rounds=g["rounds"], flagged=g["flagged"], rejected_by_LinTrace=len(r["rejected"])))
+        if r["rejected"]:
+            hs = lib.read_ndjson(histf)
+            h = hs[r["rejected"][0] - 1]
+            viol.append(dict(property="C10", kind="stress", history=h,
+                             detail=["free-running history rejected by LinTrace: flags %s" % h["flags"],
+                                     json.dumps([[dict(c=e["c"], ret=e["ret"]) for e in gg] for gg in h["hist"]])[:1200], "final %s" % h["final"]],
+                             **{"class": "C10/stress/%s" % ("flag" if h["flags"] else "nonlinearizable")}))
+        return viol
+    viol = stress(0, "a")
+    if viol:
+        # free-running results are not deterministic: confirm with an independent second run
+        viol2 = stress(7, "b")
+        if not viol2:
+            raise Infra("a free-running violation did not recur in an independent second run (not confirmed): %s" % viol[0]["detail"][0])
+        for x in viol[:3]:
+            v.violation(x, "; ".join(x["detail"])[:600])
+    v.cov = dict(states=acc["states"], transitions=acc["transitions"], traces_validated_against_impl=acc["traces"], samples=acc["samples"][:4],
+                 evaluations=acc["evaluations"], distinct_nontrivial=acc["transitions"],
+                 rule="distinct = distinct (initial state, program, schedule) triples enumerated by TLC from Concurrent.tla; each executed schedule is forced on real goroutines "
+                      "through the lock hook and its history judged by LinTrace.tla; plus free-running rounds in a -race build",
+                 exhaustive=q is False, tlc_generated_states=acc["generated"], bounded_instances=acc["instances"], trace_validation=acc["tv"],
+                 checker_cmd="tlc Concurrent.tla ; harness gated ; tlc LinTrace.tla ; harness(-race) stress ; tlc RaceClass.tla",
+                 design_properties_checked_by_tlc=["Linearizable (every terminal state of every schedule is explained by a sequential execution in program order)",
+                                                   "CapRespected", "OnlyUserValues (the configuration is never an element)"],
+                 explanation="all interleavings at lock-acquisition granularity of 2-3 goroutines x 1-2 mutators on a shared mutex-enabled stack of length 0..3, LIFO and FIFO, with and "
+                             "without capacity, enumerated by TLC and executed deterministically on real goroutines (a goroutine parks before each call and before mutex.Lock()); "
+                             "per segment the driver also checks that content changes only between lock.held and lock.release and that the lock bookkeeping is written under the lock; "
+                             "free-running rounds on 16 cores in a -race build, histories judged by LinTrace.tla, race reports classified by RaceClass.tla")
+    v.assumptions = ["interleavings are enumerated at lock-acquisition + call-boundary granularity (the property's own quantifier); instruction-level races are left to the race detector",
+                     "the race-detector part is timing dependent: it can add findings, its silence proves nothing",
+                     "TLC, CommunityModules, the verif lock hook and the Go race runtime are trusted"]
+    return v.finish()
+
+
 def replay(prop, path, work):
     harness = lib.build_harness(work)
     rc, out, _ = lib.run([harness, "replay", path], timeout=300)
